@@ -18,8 +18,9 @@ Record case := mkCase {
   c_built : list N;            (* rules in the built Rules *)
   c_ignored : list N;          (* Compiler::ignored_rules *)
   c_ast_rules : option (list N);   (* Rule items of AST::from(source) *)
-  c_utf8 : option (list N * (N * option N) * option (N * N))
+  c_utf8 : option (list N * (N * option N) * option (N * N));
                                (* invalid UTF-8: the bytes, std's (valid_up_to, error_len), the span of the E032 label *)
+  c_re_outside : nat           (* labels of `invalid regular expression` errors lying outside every REGEXP token *)
 }.
 
 Definition mem (x : N) (l : list N) : bool := existsb (N.eqb x) l.
@@ -64,6 +65,8 @@ Definition spec_case (c : case) : bool :=
   negb (c_crashed c) && negb (c_panicked c) && c_build_ok c && c_render_ok c &&
   Bool.eqb (c_add_ok c) (Nat.eqb (c_nerr c) 0) &&
   forallb (fun l => let '(a, b, x, y) := l in (a <=? b) && (b <=? c_len c) && x && y) (c_labels c) &&
+  (* the location of a regexp error lies inside the regexp it is about *)
+  Nat.eqb (c_re_outside c) 0 &&
   (* a source is never accepted while one of its rules is dropped *)
   (negb (Nat.eqb (c_nerr c) 0) ||
    forallb (fun n => mem n (c_built c) || mem n (c_ignored c)) (c_declared c)).
